@@ -159,3 +159,6 @@ func VerifGFD(fd, el, row, col int, upd bool, row2, col2 int) (rfd, rel, rrow, r
 	}
 	return g.Fd(), g.EventLoopIndex(), g.ConnMatrixRow(), g.ConnMatrixColumn(), g.Sequence() == seq
 }
+
+// VerifDims reports the registry dimensions this build was compiled with.
+func VerifDims() (rows, cols int) { return gfd.ConnMatrixRowMax, gfd.ConnMatrixColumnMax }
